@@ -335,7 +335,114 @@ func RAddMono(c *core.Ctx) {
 			}
 		}
 		var fromOld func(v ssa.Value, depth int) bool
+		// grownFrom: v is base, or base re-sliced / appended to / passed through a helper that returns its argument grown
+		var grownFrom func(v ssa.Value, isBase func(ssa.Value) bool, depth int) bool
+		phiBusy := map[*ssa.Phi]bool{}
+		grownFrom = func(v ssa.Value, isBase func(ssa.Value) bool, depth int) bool {
+			if depth > 8 {
+				return false
+			}
+			if isBase(v) {
+				return true
+			}
+			// result #idx of a module helper every return of which is one of its slice parameters grown
+			helperGrown := func(call *ssa.Call, idx int) bool {
+				cal := call.Call.StaticCallee()
+				if cal == nil || !core.InModule(cal) || len(cal.Blocks) == 0 {
+					return false
+				}
+				for k, prm := range cal.Params {
+					if k >= len(call.Call.Args) {
+						break
+					}
+					if _, isSl := prm.Type().Underlying().(*types.Slice); !isSl {
+						continue
+					}
+					all, some := true, false
+					for _, b := range cal.Blocks {
+						if r, ok := b.Instrs[len(b.Instrs)-1].(*ssa.Return); ok && idx < len(r.Results) {
+							some = true
+							pp := prm
+							if !grownFrom(r.Results[idx], func(w ssa.Value) bool { return w == ssa.Value(pp) }, depth+1) {
+								all = false
+							}
+						}
+					}
+					if all && some && grownFrom(call.Call.Args[k], isBase, depth+1) {
+						return true
+					}
+				}
+				return false
+			}
+			switch x := v.(type) {
+			case *ssa.Slice:
+				return grownFrom(x.X, isBase, depth+1)
+			case *ssa.Phi:
+				if phiBusy[x] {
+					return true // loop-carried: `dst = append(dst, …)` (coinductive)
+				}
+				phiBusy[x] = true
+				defer delete(phiBusy, x)
+				for _, e := range x.Edges {
+					if !grownFrom(e, isBase, depth+1) {
+						return false
+					}
+				}
+				return len(x.Edges) > 0
+			case *ssa.Extract:
+				if call, ok := x.Tuple.(*ssa.Call); ok {
+					return helperGrown(call, x.Index)
+				}
+			case *ssa.Call:
+				if bi, ok := x.Call.Value.(*ssa.Builtin); ok && bi.Name() == "append" && len(x.Call.Args) > 0 {
+					return grownFrom(x.Call.Args[0], isBase, depth+1)
+				}
+				if helperGrown(x, 0) {
+					return true
+				}
+				cal := x.Call.StaticCallee()
+				if cal != nil && cal.Pkg != nil && cal.Pkg.Pkg.Path() == "slices" && len(x.Call.Args) > 0 {
+					return grownFrom(x.Call.Args[0], isBase, depth+1)
+				}
+				if cal != nil && core.InModule(cal) && len(cal.Blocks) > 0 {
+					// a helper every return of which is one of its parameters grown: the result is that argument grown
+					for k, prm := range cal.Params {
+						if k >= len(x.Call.Args) {
+							break
+						}
+						if _, isSl := prm.Type().Underlying().(*types.Slice); !isSl {
+							continue
+						}
+						all, some := true, false
+						for _, b := range cal.Blocks {
+							if r, ok := b.Instrs[len(b.Instrs)-1].(*ssa.Return); ok && len(r.Results) == 1 {
+								some = true
+								pp := prm
+								if !grownFrom(r.Results[0], func(w ssa.Value) bool { return w == ssa.Value(pp) }, depth+1) {
+									all = false
+								}
+							}
+						}
+						if all && some && grownFrom(x.Call.Args[k], isBase, depth+1) {
+							return true
+						}
+					}
+				}
+			}
+			return false
+		}
+		isOldRanges := func(v ssa.Value) bool {
+			x, ok := v.(*ssa.UnOp)
+			if !ok || x.Op != token.MUL || core.FieldVarOfAddr(x.X) != rng {
+				return false
+			}
+			fa, ok := x.X.(*ssa.FieldAddr)
+			return ok && fa.X == ssa.Value(fn.Params[0])
+		}
 		fromOld = func(v ssa.Value, depth int) bool {
+			if grownFrom(v, isOldRanges, depth) {
+				return true
+			}
 			if depth > 6 {
 				return false
 			}
